@@ -1,6 +1,7 @@
 import IoraModel.Lemmas.HttpRespond
 import IoraModel.Lemmas.HttpRespondConn
 import IoraModel.Lemmas.HttpRespondFramer
+import IoraModel.Lemmas.HttpRespondRestart
 /-
 C16 — Each HTTP request gets exactly one well-formed response, in order.
 
@@ -27,19 +28,29 @@ theorem gen_connection_tokenised :
     Gen.HttpRespond.connectionTokenised = true ∧ Gen.HttpRespond.bodylessAllMethods = true ∧
     Gen.HttpRespond.headBodylessStatuses = [204, 304] := by decide
 
-/-- nothing in http_server.hpp ever assigns `SessionInfo::httpVersion` / `connectionKeepAlive`: every session the
-    decision can meet is the default one (HTTP/1.0 requests are therefore kept alive unless they say `Connection: close`) -/
-theorem gen_session_fields_never_written :
-    Gen.HttpRespond.sessionFieldWrites = 0 ∧
+/-- a default-constructed `SessionInfo` (what `onAccept` creates) never asks for close by itself: version 1.1, keep-alive.
+    (Whether anything in http_server.hpp assigns the two fields is an observation in the evidence, `session_field_writes`,
+    not an obligation: the model takes the session as an input, `Env.sess`.) -/
+theorem gen_session_defaults :
     (({} : SessionInfo).httpVersion == ascii Gen.HttpRespond.sessionCloseVersion) = false ∧
-    ({} : SessionInfo).connectionKeepAlive = true := by decide
+    ({} : SessionInfo).connectionKeepAlive = true ∧
+    connectionDecision (some {}) [] = (false, ascii "keep-alive") := by decide
+
+/-- every throw site of the request parser carries the status the model documents for it -/
+theorem gen_parse_status_table :
+    Gen.HttpRespond.stTargetTooLong = 414 ∧ Gen.HttpRespond.stUnknownMethod = 501 ∧ Gen.HttpRespond.stUnsupportedMajor = 505 ∧
+    [Gen.HttpRespond.stMalformedMethodToken, Gen.HttpRespond.stLineShape, Gen.HttpRespond.stMethodWs, Gen.HttpRespond.stVersionWs,
+     Gen.HttpRespond.stTargetCtl, Gen.HttpRespond.stBadVersion, Gen.HttpRespond.stObsFold, Gen.HttpRespond.stMultipleHost,
+     Gen.HttpRespond.stMissingHost, Gen.HttpRespond.stEmptyHost] = List.replicate 10 400 ∧
+    Gen.HttpRespond.stWsBeforeColon = 400 ∧ Gen.HttpRespond.errDefaultStatus = 500 := by decide
 
 /-! ## O1 — exactly one response per request -/
 
 /-- For every server (routes, handlers, seams that return or throw anything), every environment (shutdown racing at any
     point, transport gone, engine refusing the command) and every request bytes: the transport calls one
-    `processHttpRequest` makes — `processCalls` lists them arm by arm, following the function's control flow — are `[]`,
-    `[sendAsync w]` or `[sendAsync w, close]`: never two Sends, a Close only directly after the Send.  The engine commands
+    `processHttpRequest` makes — `processCalls` lists them arm by arm, following the function's control flow, the buffer
+    drain into the third virtual hook `onUpgradedData` included — are `[]`, `[close]`, `[sendAsync w]` or
+    `[sendAsync w, close]`: never two Sends, never a Send after the Close.  The engine commands
     are those calls minus a refused `sendAsync`, hence at most one Send command.  (Proved by case analysis of the control
     flow, `processCalls_shape`; not a property of the result type.) -/
 theorem O1_at_most_one_send (srv : Server) (env : Env) (data : Bytes) :
@@ -70,10 +81,14 @@ example : process { defaultHandler := some (fun _ r => { res := { r with suppres
     (ascii "GET / HTTP/1.1\r\nHost: x\r\n\r\n") = .suppressed := by decide +kernel
 
 /-- Shutdown seen at entry: a 503 with `Connection: close` and a Close while the transport still exists, nothing once it
-    is gone — on every request. -/
+    is gone — on every request.  The Send and the Close are two `_mutex` sections, each with its own `_transport` test:
+    `stop()` resetting the transport between them leaves the 503 without its Close (the transport is gone with all its
+    sessions then), never a Close without the 503 and never a second Send. -/
 theorem O1_shutdown (srv : Server) (env : Env) (data : Bytes) (h : env.shutdownAtEntry = true) :
     process srv env data =
-      (if env.transportAtEntry then (if env.enqueueOk then .respond shutdownWire true else .sendFailed true) else .nothing) ∧
+      (if env.transportAtEntry then
+         (if env.enqueueOk then .respond shutdownWire env.transportAtShutdownClose else .sendFailed env.transportAtShutdownClose)
+       else .nothing) ∧
     shutdownWire = toWire 503 (ascii "Service Unavailable")
       [(ascii "Connection", ascii "close"), (ascii "Content-Length", ascii "20"), (ascii "Content-Type", ascii "text/plain")]
       (ascii "Server Shutting Down") :=
@@ -129,6 +144,96 @@ theorem O1_seam_throw_500 (srv : Server) (env : Env) (data : Bytes) (p : ParsedR
 
 example : process { upgradeHook := fun _ => .threw false } Env.up
     (ascii "GET / HTTP/1.1\r\nHost: x\r\nUpgrade: websocket\r\n\r\n") = .respond (errorWire 500) true := by decide +kernel
+
+/-- F1 (review round 2), repaired by FC16c: an accepted upgrade whose request was followed, in the same read, by bytes of the
+    upgraded protocol.  The arm hands the upgrade response to the transport and then feeds the buffered bytes to the virtual
+    `onUpgradedData` on the worker thread.  Whatever that hook does — return, throw a `std::exception`, throw anything else —
+    and in every environment, the request gets the upgrade response and NOTHING else is sent: the only effect of a throw is
+    one Close.  (On the unrepaired tree `Gen.upgradeDrainGuarded` is false, the throw reaches the function's error arm, the
+    calls are `[sendAsync 101, sendAsync 500, close]`, and `drainCalls_eq` / `processCalls_shape` do not build.) -/
+theorem O1_upgrade_drain (srv : Server) (env : Env) (data : Bytes) (p : ParsedReq) (u : Resp)
+    (h : env.shutdownAtEntry = false) (hp : fromWireFormat data = .ok p) (hu : upgradeSeam srv p = .ret (some u)) :
+    (processCalls srv env data).1 =
+      (if !env.upAtSend then []
+       else [.sendAsync (toWire u.status (statusText u.status)
+               (hSet u.headers (ascii "Server") (ascii Gen.HttpRespond.serverHeader)) u.body)]) ++
+      (if drainCloses srv env then [.close] else []) ∧
+    (drainCloses srv env = true ↔
+      env.bufferedAtUpgrade = true ∧ (∃ std, srv.drainHook = .threw std) ∧ env.upAtClose = true) ∧
+    Gen.HttpRespond.upgradeDrainGuarded = true := by
+  refine ⟨?_, ?_, drainGuarded_eq⟩
+  · unfold upgradeSeam at hu
+    simp [processCalls, h, hp, hu, drainCalls_eq]
+  · unfold drainCloses
+    cases env.bufferedAtUpgrade <;> cases env.upAtClose <;> cases srv.drainHook <;> simp
+
+example : (processCalls { upgradeHook := fun _ => .ret (some { status := 101 }), drainHook := .threw false }
+      { bufferedAtUpgrade := true } (ascii "GET / HTTP/1.1\r\nHost: x\r\nUpgrade: websocket\r\n\r\n")).1 =
+    [.sendAsync (ascii "HTTP/1.1 101 Switching Protocols\r\nServer: Iora/1.0\r\n\r\n"), .close] := by decide +kernel
+
+/-- F4a (review round 2): `sendErrorResponse` on pool overflow in EVERY environment, not only on a running server: nothing
+    while `_transport && !_shutdown` fails; otherwise the 503 Send and the Close — and the Close also when the engine
+    refused the Send command, so an overflowing request never leaves its connection open and unanswered.  On a running
+    server these are the `overflowCmds` of the pool theorems. -/
+theorem O1_overflow_every_env (env : Env) :
+    CallsShaped (overflowCalls env) ∧
+    engineCmds env (overflowCalls env) =
+      (if !env.upAtSend then [] else if env.enqueueOk then [.send overflowWire, .close] else [.close]) ∧
+    engineCmds Env.up (overflowCalls Env.up) = overflowCmds :=
+  ⟨overflowCalls_shaped env, overflowCalls_cmds env, overflowCalls_up⟩
+
+/-! ## O1 across `stop()` / `start()` on one server object (review round 2, F2) -/
+
+/-- "…exactly one response, to the request's connection", across restarts: for every schedule of arrivals, picks, emits,
+    `stop()` and `start()` calls on one `HttpServer` object, every engine command reaches the transport its request arrived
+    on (a command of a request that arrived on an earlier transport is dropped, never delivered to the current one).  The
+    worker is the one the translator found (`Gen.dispatchChecksGeneration`). -/
+def O1_restart_statement : Prop :=
+  ∀ (P : Params) (steps : List RStep), LogSameGen (runR Gen.HttpRespond.dispatchChecksGeneration P {} steps).log
+
+/-- FC16e, repaired: since the worker compares the transport epoch captured at dispatch inside every guarded block
+    (`Gen.dispatchChecksGeneration`, 7 guards, `start()` advances the epoch under `_mutex`), the statement holds for every
+    schedule — handlers that outlive `stop()`'s bounded drain wait (`Gen.stopDrainSeconds` s) and any number of restarts
+    included.  On the unrepaired tree the fact is false and this theorem does not build. -/
+theorem O1_restart : O1_restart_statement := by
+  intro P steps
+  have hg : Gen.HttpRespond.dispatchChecksGeneration = true := by decide
+  rw [hg]
+  exact runR_guarded_log P {} steps (by intro e h; cases h)
+
+/-- What the repair prevents (the unrepaired worker, `guarded = false`): `stop()` gives up on a running handler, the task
+    survives in the pool, `start()` installs a fresh transport whose engine numbers sessions from 1 again, and the late
+    worker's `sendAsync(sid, …)` passes the `_transport && !_shutdown` guard.  Witness: a request arrives on session 1, a
+    worker takes it, `stop()`, `start()`, the worker sends: the command of a generation-0 request is delivered by the
+    generation-1 transport — to whoever holds session id 1 there. -/
+theorem O1_restart_unguarded_refuted :
+    ¬ ∀ (P : Params) (steps : List RStep), LogSameGen (runR false P {} steps).log := by
+  intro h
+  have := h { w := 2, qcap := 1024, respond := fun _ _ => [.send [65]] } [.arrive 1 [], .pick, .stop, .start, .emit 0]
+    ⟨1, 0, 1, .send [65]⟩ (by decide +kernel)
+  revert this
+  decide
+
+/-- Partial: if `start()` is only ever called when no task of the previous run is left (the drain wait of `stop()` did not
+    expire), every command reaches the transport its request arrived on — for every schedule and either worker. -/
+theorem O1_restart_partial_drained (g : Bool) (P : Params) (steps : List RStep) (hd : StartsDrained g P {} steps) :
+    LogSameGen (runR g P {} steps).log :=
+  runR_drained g P {} steps hd (by intro t h; cases h) (by intro e h; cases h)
+
+example : StartsDrained false { w := 2, qcap := 4, respond := fun _ _ => [.send [65]] } {}
+    [.arrive 1 [], .pick, .emit 0, .stop, .start, .arrive 1 [], .pick, .emit 0] :=
+  ⟨trivial, trivial, trivial, trivial, rfl, trivial, trivial, trivial, trivial⟩
+
+/-- a command of a stale task is dropped, not redirected: after the witness schedule the log of the repaired worker is empty -/
+example : (runR true { w := 2, qcap := 1024, respond := fun _ _ => [.send [65]] } {}
+    [.arrive 1 [], .pick, .stop, .start, .emit 0]).log = [] := by decide +kernel
+
+/-- Gen conformance for the two restart facts and the write-queue bound `start()` hands to the transport: the session write
+    queue holds at least one response per task the pool can queue (a slow reader on a keep-alive connection is not closed by
+    back-pressure before the pool itself pushes back). -/
+theorem gen_restart_and_write_queue :
+    Gen.HttpRespond.dispatchChecksGeneration = true ∧ Gen.HttpRespond.stopDrainSeconds = 2 ∧
+    Gen.HttpRespond.poolQueueCap ≤ Gen.HttpRespond.maxWriteQueue := by decide
 
 /-! ## O2 — responses never interleave -/
 
@@ -264,6 +369,42 @@ theorem O4_head_no_body (srv : Server) (env : Env) (data : Bytes) (p : ParsedReq
     refine ⟨H, ((buildWire env (reqOf srv p) (dispatched srv p).1).2 && env.upAtClose), ?_, hx, hy⟩
     rw [process_ok_false srv env data p h1 hp hu hs, ← hw]
     exact sendBlock_up env _ _ h2 h3
+
+/-- the bytes of a response behind the end of its header section -/
+def wireBody (w : Bytes) : Option Bytes := (splitAtSub crlf2 w).map (fun hb => hb.2)
+
+/-- The clause "a HEAD response has no body" at full strength: whichever arm of the server answers request bytes whose
+    request line says HEAD — the normal path, the error arm, the shutdown arm — no byte follows the header section. -/
+def O4_head_statement : Prop :=
+  ∀ (srv : Server) (env : Env) (data w : Bytes) (c : Bool),
+    (ascii "HEAD ").isPrefixOf data = true → process srv env data = .respond w c → wireBody w = some []
+
+/-- FC16d (recorded): every arm outside the normal path builds its own response and never looks at the method.  Witness:
+    `HEAD / HTTP/1.1` without Host on a running default server is answered `400 … Content-Length: 11` followed by the
+    11 bytes `Bad Request` (then closed).  The same holds for the shutdown arm (503 + 20 bytes) and for the 500 of a
+    throwing seam (+ 21 bytes); `sendErrorResponse` on pool overflow (503 + 38 bytes) is the fourth such arm. -/
+theorem O4_head_refuted : ¬ O4_head_statement := by
+  intro h
+  have := h {} Env.up (ascii "HEAD / HTTP/1.1\r\n\r\n") (errorWire 400) true (by decide +kernel) (by decide +kernel)
+  revert this
+  decide +kernel
+
+example : process {} { shutdownAtEntry := true } (ascii "HEAD / HTTP/1.1\r\nHost: x\r\n\r\n") = .respond shutdownWire true ∧
+    wireBody shutdownWire = some (ascii "Server Shutting Down") := by decide +kernel
+example : process { upgradeHook := fun _ => .threw true } Env.up (ascii "HEAD / HTTP/1.1\r\nHost: x\r\nUpgrade: h2c\r\n\r\n") =
+      .respond (errorWire 500) true ∧ wireBody (errorWire 500) = some (ascii "Internal Server Error") := by decide +kernel
+example : wireBody overflowWire = some (ascii "Server overloaded - please retry later") := by decide +kernel
+
+/-- What does hold (the partial next to `O4_head_refuted`): on the normal path — request parsed, no upgrade taken, response not
+    suppressed — the response is `toWire st text H []`: status line, field lines, the empty line, and not one byte more. -/
+theorem O4_head_partial_normal_path (srv : Server) (env : Env) (data : Bytes) (p : ParsedReq)
+    (h1 : env.shutdownAtEntry = false) (h2 : env.upAtSend = true) (h3 : env.enqueueOk = true)
+    (hp : fromWireFormat data = .ok p) (hu : upgradeSeam srv p = .ret none) (hs : suppressSeam srv p = .ret false)
+    (hm : p.method = .HEAD) :
+    ∃ st text H c, process srv env data = .respond (toWire st text H []) c := by
+  rcases O4_head_no_body srv env data p false h1 h2 h3 hp hu hs hm with h | ⟨H, c, h, _, _⟩
+  · rw [process_ok_false srv env data p h1 hp hu hs, sendBlock_up env _ _ h2 h3] at h; cases h
+  · exact ⟨_, _, H, c, h⟩
 
 /-- A HEAD request is never suppressed by a handler flag when it is served by a GET route (MATCHED_AS_HEAD ignores
     `_suppressSend`). -/
